@@ -185,6 +185,37 @@ def fixedpoint_energy_harness(cy, ns, n, route):
     return run
 
 
+REPLAY_ITER = r"""
+import sys, json, numpy as np
+w = json.load(sys.stdin)
+from pyiga import solvers
+rng = np.random.RandomState(3)
+bad = []
+for n, maxiter, tol in ((6, 50, 1e-3), (5, 3, 1e-9), (7, 200, 1e-6)):
+    B = rng.rand(n, n); A = B @ B.T + n * np.eye(n); f = rng.rand(n)
+    D = np.diag(A)
+    act = np.array([0, 2, n - 1]) if w['active'] else None
+    x0 = 10.0 * rng.rand(n) if w['x0'] else None
+    its = []
+    def step(x):
+        y = x + (f - A @ x) / D * 0.5
+        if act is not None:
+            z = x.copy(); z[act] = y[act]; y = z          # update the active dofs only (Dirichlet-style)
+        its.append(y.copy()); return y
+    x, k = solvers.iterative_solve(step, A, f, x0=None if x0 is None else x0.copy(), active_dofs=act, tol=tol, maxiter=maxiter)
+    sel = slice(None) if act is None else act
+    start = np.zeros(n) if x0 is None else x0
+    res0 = np.linalg.norm((f - A @ start)[sel])
+    ratios = [np.linalg.norm((f - A @ y)[sel]) / res0 for y in its]
+    first = next((i + 1 for i, q in enumerate(ratios) if q < tol), None)
+    exp_k = first if (first is not None and first <= maxiter) else np.inf
+    exp_n = first if exp_k != np.inf else maxiter
+    if k != exp_k or len(its) != exp_n or not np.array_equal(x, its[-1]):
+        bad.append('n=%d maxiter=%d tol=%g: returned k=%s after %d steps, stopping rule gives k=%s after %s steps' % (n, maxiter, tol, k, len(its), exp_k, exp_n))
+print(json.dumps({'reproduced': bool(bad), 'bad': bad[:4]}))
+"""
+
+
 def iterative_harness(ns, n, maxiter, with_x0, with_active):
     def run(c):
         nrm = ns['_norm']; del nrm.log[:]
@@ -194,7 +225,7 @@ def iterative_harness(ns, n, maxiter, with_x0, with_active):
         def step(x):
             y = np.array([c.fresh('it') for _ in range(n)], dtype=object); iters.append(y); return y
         x0 = sx.symarray('x0', (n,)) if with_x0 else None
-        act = [0] if with_active else None
+        act = ([0] if n < 3 else [0, n - 1]) if with_active else None
         # scipy.linalg.norm of the initial residual must be nonzero for res/res0 to be defined
         x, k = ns['iterative_solve'](step, A, f, x0=x0, active_dofs=act, tol=tol, maxiter=maxiter)
         norms = nrm.log
@@ -381,11 +412,12 @@ def main():
                 for cex in st.cex:
                     run.report('gauss_seidel:energy:%s' % route, '%s (n=%d, %s): %s' % (cex['name'], nn, route, jsonable(sx.model_dict(cex['model']))), {'kind': 'energy'}, True)
     if run.want('drivers'):
-        for (nn, mi, wx, wa) in [(1, 1, False, False), (2, 2, True, False), (2, 3, False, True)]:
+        for (nn, mi, wx, wa) in [(1, 1, False, False), (2, 2, True, False), (2, 3, False, True), (2, 2, True, True), (3, 2, True, True)]:
             st = sx.explore(iterative_harness(ns, nn, mi, wx, wa), timeout_ms=30000)
             run.absorb(st, 'iterative_solve', bound={'n': nn, 'maxiter': mi, 'x0': wx, 'active_dofs': wa}, sample={'obligation': 'iterative_solve stopping rule', 'maxiter': mi})
             for cex in st.cex:
-                run.report('iterative_solve', '%s: %s' % (cex['name'], jsonable(sx.model_dict(cex['model']))), {'kind': 'driver'}, True)
+                r = realbuild.run_real(REPLAY_ITER, {'x0': wx, 'active': wa}, only=[])
+                run.report('iterative_solve', '%s: %s; real run: %s' % (cex['name'], jsonable(sx.model_dict(cex['model'])), r['bad']), {'kind': 'driver', 'x0': wx, 'active': wa}, r['reproduced'])
         for kind in ('none', 'array'):
             st = sx.explore(twogrid_harness(ns, 3, 2, kind), timeout_ms=30000, max_paths=2000)
             run.absorb(st, 'twogrid', bound={'nf': 3, 'nc': 2, 'u0': kind}, sample={'obligation': 'twogrid accepts the starting vector', 'u0': kind})
